@@ -30,7 +30,13 @@ def run(ctx):
         add(alg=a["alg"], advertised=adv, chain=sizes[a["actual"]], flush_num=fn, flush_den=fd, decl_delta=delta, corrupt=corrupt)
     # concrete encoder variety beyond the abstract grid
     levels = {1: [1, 9], 2: [0, 11], 3: [1, 9]}
-    ids = ["Chrome-133"] if ctx.quick else ["Chrome-133", "Chrome-100", "Firefox-120", "Safari-16.0", "Edge-106"]
+    # parrots whose dumped spec carries a compress_certificate extension (the scenario overrides its algorithm list)
+    import data
+    specs = data.dump_specs(ctx)["specs"]
+    capable = sorted(i for i, sp in specs.items() if any(e["kind"] == "UtlsCompressCertExtension" for e in sp["exts"]))
+    if "Chrome-133" not in capable:
+        raise vlib.Machinery("Chrome-133 has no compress_certificate extension any more: adjust the base parrot of C21")
+    ids = ["Chrome-133"] if ctx.quick else capable
     for i in ids:
         for alg in (1, 2, 3):
             for lv in levels[alg]:
